@@ -611,7 +611,13 @@ def history_world(args, scratch):
             make_farm(F, args.get('canary'), args.get('repo'))
             like = dict(obs['like'])
             # the fresh world gets the library as generation wrote it - not what earlier fitting runs left in that directory
-            shutil.copytree(H + '/snap/lib/' + obs['runname'], libdir(F, obs['runname']), ignore=shutil.ignore_patterns('previous_eqns_*'))
+            import re
+            gen_file = re.compile(r'^(all_equations|unique_equations|trees|orig_trees|extra_trees|aifeyn|orig_aifeyn|extra_aifeyn|matches|'
+                                  r'inv_subs|inv_idx)_\d+(_round_\d+)?\.txt$')
+
+            def only_generation_outputs(d, names):
+                return [n for n in names if not os.path.isdir(os.path.join(d, n)) and not gen_file.match(n)]
+            shutil.copytree(H + '/snap/lib/' + obs['runname'], libdir(F, obs['runname']), ignore=only_generation_outputs)
             if like['cls'] in ('Gauss', 'Poisson'):
                 os.makedirs(F + '/' + like['data_dir'])
                 shutil.copy(H + '/' + like['data_dir'] + '/' + like['data_file'], F + '/' + like['data_dir'] + '/' + like['data_file'])
